@@ -6,7 +6,7 @@ import traceback
 
 from tools import lib
 
-TRANSLATORS = ["tr_classes", "tr_elements", "tr_steps", "tr_formulas", "tr_kk", "tr_columns", "tr_zhit", "tr_drt", "tr_tlm", "tr_suggest", "tr_progress", "tr_pool", "tr_dataaccess", "tr_kksteps"]
+TRANSLATORS = ["tr_classes", "tr_elements", "tr_steps", "tr_formulas", "tr_kk", "tr_columns", "tr_zhit", "tr_drt", "tr_tlm", "tr_suggest", "tr_progress", "tr_pool", "tr_dataaccess", "tr_kksteps", "tr_assembly"]
 
 
 def regenerate_all():
